@@ -20,6 +20,7 @@ BOUND = ("boundary-free hat basis on [0,1]^d, d<=3; data sets of 3..60 samples w
          "optimize_coefficients(_spatially_adaptive) options 1,2,3; (d) histories: 2..3 trainings (train or train_spatially_adaptive) on ONE object with "
          "different test shares {0.1,0.2,0.4,0.6} and regularisations, compared with a fresh object; default construction is attempted in every case, all other clauses use "
          "an operation constructed with rangee=(0.05,0.95) given as a tuple")
+BOUND += "; fault / magnitude additions: regularisation 1e-9 in the lambda set; residual also judged against lambda*|M alpha|"
 RULE = BOUND + "; one case = one (data set, targets, regularisation, matrix, grid or training call); all cases non-trivial (>=1 basis function, >=1 training sample)"
 BUDGET = {"quick": 60.0, "thorough": 840.0}
 
